@@ -4,11 +4,13 @@ F19 = "dulwich/protocol.py"
 BOUNDED = {
     "C19": [
         {"name": "stdlib_axioms:hex", "script": "stdlib_axioms.py", "args": ["hex"]},
+        {"name": "c19_roundtrip", "script": "c19_roundtrip.py", "args": []},
         {"name": "pkt_line@pkt_payloads", "script": "enum_contract.py", "args": [F19, "pkt_line", "pkt_payloads"]},
         {"name": "_parse_pkt_line_length@len_prefixes", "script": "enum_contract.py", "args": [F19, "_parse_pkt_line_length", "len_prefixes"]},
     ],
     "C03": [
         {"name": "apply_delta@delta_small", "script": "enum_contract.py", "args": [P, "apply_delta", "delta_small"]},
         {"name": "_delta_encode_size@ints_small", "script": "enum_contract.py", "args": [P, "_delta_encode_size", "ints_small"]},
+        {"name": "delta_roundtrip@delta_pairs", "script": "delta_roundtrip.py", "args": []},
     ],
 }
